@@ -85,7 +85,8 @@ public:
     if (withParams_) for (size_t t = 0; t < T_; ++t) for (size_t j = 0; j < n_; ++j) e_[t][j] = getParameterValue(nm(t, j));
   }
   void computeDEmissionProbabilities(std::string& variable) const override {
-    for (size_t t = 0; t < T_; ++t) for (size_t j = 0; j < n_; ++j) de_[t][j] = (variable == nm(t, j)) ? 1. : 0.;
+    // the variable is the full parameter name (with the namespace)
+    for (size_t t = 0; t < T_; ++t) for (size_t j = 0; j < n_; ++j) de_[t][j] = (variable == getNamespace() + nm(t, j)) ? 1. : 0.;
   }
   void computeD2EmissionProbabilities(std::string&) const override {
     for (size_t t = 0; t < T_; ++t) for (size_t j = 0; j < n_; ++j) d2e_[t][j] = 0.;
@@ -95,6 +96,16 @@ public:
 };
 
 std::string hx(double d) { return d != d ? std::string("nan") : doubleToHex(d); }
+std::string hrows(const std::vector<std::vector<double>>& vv) {
+  std::string s;
+  for (size_t i = 0; i < vv.size(); ++i) { if (i) s += " ; "; bool f = true; for (double d : vv[i]) { if (!f) s += " "; f = false; s += hx(d); } }
+  return vv.empty() ? "-" : s;
+}
+template<class L> bool assignAs(HmmLikelihood& dst, const HmmLikelihood& src) {
+  L* d = dynamic_cast<L*>(&dst); const L* s = dynamic_cast<const L*>(&src);
+  if (!d || !s) return false;
+  *d = *s; return true;
+}
 std::string hxs(const std::vector<double>& v) { std::string s; for (double d : v) { if (!s.empty()) s += " "; s += hx(d); } return s.empty() ? "-" : s; }
 
 struct State {
@@ -103,6 +114,11 @@ struct State {
   std::vector<double> P, F, E;
   std::map<std::string, std::shared_ptr<HmmLikelihood>> obj;
   std::map<std::string, std::shared_ptr<Parametrizable>> par;   // the same objects, as Parametrizable
+  std::map<std::string, std::vector<std::vector<double>>> buf;  // targets of getHiddenStatesPosteriorProbabilities(probs, append)
+  // sizes of the arrays read by get(D|D2)LogLikelihoodForASite (private members; the accessors do not check their
+  // argument): the number of positions once a derivative of that order has been computed
+  struct Shadow { size_t dN = 0, d2N = 0; };
+  std::map<std::string, Shadow> sh;
 };
 
 template<class L> void reg(State& s, const std::string& k, std::shared_ptr<L> p) { s.obj[k] = p; s.par[k] = p; }
@@ -119,9 +135,25 @@ std::string run(State& s, const Toks& t) {
     auto a = std::make_shared<TAlphabet>(s.n);
     auto tr = std::make_shared<TTransitions>(a, s.P, s.F);
     auto em = std::make_shared<TEmissions>(a, s.E, t[3] == "1");
-    s.obj.erase(t[1]); s.par.erase(t[1]);
+    s.obj.erase(t[1]); s.par.erase(t[1]); s.sh.erase(t[1]);
     if (t[2] == "resc") reg(s, t[1], std::make_shared<RescaledHmmLikelihood>(a, tr, em, ""));
     else if (t[2] == "low") reg(s, t[1], std::make_shared<LowMemoryRescaledHmmLikelihood>(a, tr, em, "", toU(t[4])));
+    else if (t[2] == "log") reg(s, t[1], std::make_shared<LogsumHmmLikelihood>(a, tr, em, ""));
+    else return "bad-op";
+    return hx(s.obj[t[1]]->getLogLikelihood());
+  }
+  if (o == "buildtm") {
+    // buildtm <obj> <resc|low|log> <withParams 0|1> <tm> [chunk]: the transition matrix is a copy of the built-in model <tm>
+    auto q = s.tm.find(t[4]);
+    if (q == s.tm.end()) return "no-object";
+    size_t n = q->second->getNumberOfStates();
+    if (s.n != n || s.E.empty() || s.E.size() % s.n) return "bad-stage";
+    auto a = std::make_shared<TAlphabet>(n);
+    std::shared_ptr<HmmTransitionMatrix> tr(dynamic_cast<AbstractHmmTransitionMatrix*>(q->second->clone()));
+    auto em = std::make_shared<TEmissions>(a, s.E, t[3] == "1");
+    s.obj.erase(t[1]); s.par.erase(t[1]); s.sh.erase(t[1]);
+    if (t[2] == "resc") reg(s, t[1], std::make_shared<RescaledHmmLikelihood>(a, tr, em, ""));
+    else if (t[2] == "low") reg(s, t[1], std::make_shared<LowMemoryRescaledHmmLikelihood>(a, tr, em, "", toU(t[5])));
     else if (t[2] == "log") reg(s, t[1], std::make_shared<LogsumHmmLikelihood>(a, tr, em, ""));
     else return "bad-op";
     return hx(s.obj[t[1]]->getLogLikelihood());
@@ -144,10 +176,28 @@ std::string run(State& s, const Toks& t) {
     if (o == "tmsetP") {
       RowMatrix<double> m(n, n);
       for (size_t i = 0; i < n; ++i) for (size_t j = 0; j < n; ++j) m(i, j) = hexToDouble(t[2 + i * n + j]);
-      dynamic_cast<FullHmmTransitionMatrix&>(M).setTransitionProbabilities(m); return "ok";
+      auto* f = dynamic_cast<FullHmmTransitionMatrix*>(&M); if (!f) return "bad-op";
+      f->setTransitionProbabilities(m); return "ok";
     }
     if (o == "tmpij") { const Matrix<double>& m = M.getPij(); std::vector<double> f; for (size_t i = 0; i < n; ++i) for (size_t j = 0; j < n; ++j) f.push_back(m(i, j)); return hxs(f); }
-    if (o == "tmPij") return hx(M.Pij(toU(t[2]), toU(t[3])));
+    if (o == "tmPij") { if (toU(t[2]) >= n || toU(t[3]) >= n) return "bad-index"; return hx(M.Pij(toU(t[2]), toU(t[3]))); }
+    if (o == "tmall") {
+      // getPij(), every Pij(i,j), getEquilibriumFrequencies() ("pe": the matrix first, "ep": the vector first)
+      std::vector<double> P, Q, E;
+      if (t[2] == "ep") E = M.getEquilibriumFrequencies();
+      { const Matrix<double>& m = M.getPij(); for (size_t i = 0; i < n; ++i) for (size_t j = 0; j < n; ++j) P.push_back(m(i, j)); }
+      if (t[2] != "ep") E = M.getEquilibriumFrequencies();
+      for (size_t i = 0; i < n; ++i) for (size_t j = 0; j < n; ++j) Q.push_back(M.Pij(i, j));
+      return hxs(P) + " ; " + hxs(Q) + " ; " + hxs(E);
+    }
+    if (o == "tmassign") {
+      auto q2 = s.tm.find(t[2]);
+      if (q2 == s.tm.end()) return "no-object";
+      auto* fa = dynamic_cast<FullHmmTransitionMatrix*>(&M); auto* fb = dynamic_cast<FullHmmTransitionMatrix*>(q2->second.get());
+      auto* aa = dynamic_cast<AutoCorrelationTransitionMatrix*>(&M); auto* ab = dynamic_cast<AutoCorrelationTransitionMatrix*>(q2->second.get());
+      if (fa && fb) *fb = *fa; else if (aa && ab) *ab = *aa; else return "class-mismatch";
+      return "ok";
+    }
     if (o == "tmeq") return hxs(M.getEquilibriumFrequencies());
     if (o == "tmnames") { std::string r; for (auto& nm : MP.getParameters().getParameterNames()) r += (r.empty() ? "" : " ") + strToHex(nm); return r.empty() ? "-" : r; }
     if (o == "tmclone") { s.tm[t[2]] = std::shared_ptr<AbstractHmmTransitionMatrix>(dynamic_cast<AbstractHmmTransitionMatrix*>(M.clone())); return "ok"; }
@@ -159,8 +209,17 @@ std::string run(State& s, const Toks& t) {
     if (q == s.obj.end()) return "no-object";
     std::shared_ptr<HmmLikelihood> c(q->second->clone());
     std::shared_ptr<Parametrizable> cp = std::dynamic_pointer_cast<Parametrizable>(c);
-    s.obj[t[2]] = c; s.par[t[2]] = cp;
+    s.obj[t[2]] = c; s.par[t[2]] = cp; s.sh[t[2]] = s.sh[t[1]];
     return hx(c->getLogLikelihood());
+  }
+  if (o == "assign") {
+    // assign <src> <dst>: *dst = *src through operator= of the likelihood class
+    auto a = s.obj.find(t[1]), b = s.obj.find(t[2]);
+    if (a == s.obj.end() || b == s.obj.end()) return "no-object";
+    if (!(assignAs<RescaledHmmLikelihood>(*b->second, *a->second) || assignAs<LowMemoryRescaledHmmLikelihood>(*b->second, *a->second)
+          || assignAs<LogsumHmmLikelihood>(*b->second, *a->second))) return "class-mismatch";
+    s.sh[t[2]] = s.sh[t[1]];
+    return hx(b->second->getLogLikelihood());
   }
   if (o == "agree") {
     std::string r;
@@ -175,17 +234,37 @@ std::string run(State& s, const Toks& t) {
   if (o == "val") return hx(L.getValue());
   if (o == "brk") { std::vector<size_t> b; for (size_t i = 2; i < t.size(); ++i) b.push_back(toU(t[i])); L.setBreakPoints(b); return hx(L.getLogLikelihood()); }
   if (o == "setp") { Pz.setParameterValue(t[2], hexToDouble(t[3])); return hx(L.getLogLikelihood()); }
+  if (o == "ns") { Pz.setNamespace(t.size() > 2 ? t[2] : std::string()); return hx(L.getLogLikelihood()); }
+  if (o == "names") { std::string r; for (auto& nm : Pz.getParameters().getParameterNames()) r += (r.empty() ? "" : " ") + nm; return r.empty() ? "-" : r; }
   if (o == "setps") {
     ParameterList pl;
     for (size_t i = 2; i + 1 < t.size(); i += 2) pl.addParameter(Parameter(t[i], hexToDouble(t[i + 1])));
     L.setParameters(pl); return hx(L.getLogLikelihood());
   }
   if (o == "post") { std::vector<std::vector<double>> vv; L.getHiddenStatesPosteriorProbabilities(vv, false); std::vector<double> f; for (auto& r : vv) for (double d : r) f.push_back(d); return hxs(f); }
+  if (o == "postb") { auto& vv = s.buf[t[2]]; L.getHiddenStatesPosteriorProbabilities(vv, t[3] == "1"); return hrows(vv); }
+  if ((o == "post1" || o == "sl") && toU(t[2]) >= L.hmmEmissionProbabilities().getNumberOfPositions()) return "bad-site";
   if (o == "post1") return hxs(L.getHiddenStatesPosteriorProbabilitiesForASite(toU(t[2])));
   if (o == "sl") return hx(L.getLikelihoodForASite(toU(t[2])));
   if (o == "sls") return hxs(L.getLikelihoodForEachSite());
-  if (o == "d1") return hx(L.getFirstOrderDerivative(t[2]));
-  if (o == "d2") return hx(L.getSecondOrderDerivative(t[2]));
+  if ((o == "d1" || o == "d2" || o == "dsite" || o == "d2site") && t.size() < 3) return "bad-op";
+  if (o == "d1" || o == "d2") {
+    double v = o == "d1" ? L.getFirstOrderDerivative(t[2]) : L.getSecondOrderDerivative(t[2]);
+    if (!t[2].empty()) {
+      size_t T = L.hmmEmissionProbabilities().getNumberOfPositions();
+      State::Shadow& h = s.sh[t[1]];
+      h.dN = T;
+      if (o == "d2") h.d2N = T;
+    }
+    return hx(v);
+  }
+  if (o == "dsite" || o == "d2site") {
+    size_t site = toU(t[2]);
+    const State::Shadow& h = s.sh[t[1]];
+    bool isResc = dynamic_cast<RescaledHmmLikelihood*>(&L) != nullptr, isLog = dynamic_cast<LogsumHmmLikelihood*>(&L) != nullptr;
+    if ((isResc || isLog) && (site >= h.dN || (o == "d2site" && site >= h.d2N))) return "ub";
+    return hx(o == "dsite" ? L.getDLogLikelihoodForASite(site) : L.getD2LogLikelihoodForASite(site));
+  }
   return "bad-op";
 }
 }
